@@ -296,6 +296,17 @@ def run(ctx):
                 if isinstance(s2, ast.If):
                     inner |= {a for a in quant_atoms(s2.test) if a[2] in ("LtE", "GtE", "Lt", "Gt")}
             if not inner:
+                # the sign tests may live in a shared helper called from the branch (def h(costs, min_cap, max_cap): if all(max_cap <= 0): ...)
+                for c in [x for s2 in au.walk_stmts(branch) for x in au.walk_own(s2) if isinstance(x, ast.Call) and isinstance(x.func, ast.Name)]:
+                    for t in p.resolve_call(c, fn):
+                        if t.cls is None and t.parent is None:
+                            names = [q.name for q in t.params]
+                            same = all(isinstance(a, ast.Name) and i < len(names) and (a.id == names[i] or names[i] not in au.names_in(t.node)) or not isinstance(a, ast.Name)
+                                       for i, a in enumerate(c.args))
+                            for s3 in au.walk_stmts(t.body):
+                                if isinstance(s3, ast.If) and same:
+                                    inner |= {a for a in quant_atoms(s3.test) if a[2] in ("LtE", "GtE", "Lt", "Gt")}
+            if not inner:
                 continue
             n += 1
             sign_outer = {a for a in outer if a[2] in ("LtE", "GtE", "Lt", "Gt")}
